@@ -1,3 +1,4 @@
+mod container;
 mod detect;
 mod gen;
 mod names;
@@ -40,6 +41,11 @@ fn main() {
             eprintln!("detect: {} cases, {} disagreements, {} violations, {} contract violations",
                 r["evaluations"], r["disagreements"].as_array().unwrap().len(),
                 r["violations"].as_array().unwrap().len(), r["contract_violations"].as_array().unwrap().len());
+        }
+        "container" => {
+            let n = arg(&args, "--n").and_then(|s| s.parse().ok()).unwrap_or(400);
+            let r = container::run(seed, n, &driver, &out);
+            eprintln!("container: {} evaluations, {} disagreements, {} violations", r["evaluations"], r["disagreements"].as_array().unwrap().len(), r["violations"].as_array().unwrap().len());
         }
         "total" => {
             let n = arg(&args, "--n").and_then(|s| s.parse().ok()).unwrap_or(200);
